@@ -48,6 +48,7 @@ type pkgSpec struct {
 	imppath string
 	match   func(name string) bool // which files to rewrite
 	imports map[string]string      // import path -> shim name
+	ranges  bool                   // rewrite range-over-map only (no go/select/channel rewriting)
 }
 
 func main() {
@@ -60,6 +61,7 @@ func main() {
 		{dir: ".", imppath: "github.com/Flowpack/prunner", match: func(string) bool { return true }, imports: concImports},
 		{dir: "taskctl", imppath: "github.com/Flowpack/prunner/taskctl", match: func(n string) bool { return strings.HasPrefix(n, "scheduler") }, imports: concImports},
 	}
+	specs = append(specs, pkgSpec{dir: "definition", imppath: "github.com/Flowpack/prunner/definition", match: func(string) bool { return true }, imports: map[string]string{}, ranges: true})
 	if *withOS {
 		specs = append(specs, pkgSpec{dir: "store", imppath: "github.com/Flowpack/prunner/store", match: func(string) bool { return true }, imports: map[string]string{"os": "vos"}})
 	}
@@ -110,7 +112,7 @@ func main() {
 
 // loadExports asks the go command for the export data of every dependency
 func loadExports() map[string]string {
-	cmd := exec.Command("go", "list", "-export", "-deps", "-json=ImportPath,Export", "-tags", "verif", ".", "./taskctl", "./store")
+	cmd := exec.Command("go", "list", "-export", "-deps", "-json=ImportPath,Export", "-tags", "verif", ".", "./taskctl", "./store", "./definition")
 	cmd.Dir = *repo
 	cmd.Stderr = os.Stderr
 	outb, err := cmd.Output()
@@ -213,7 +215,7 @@ func rewritePackage(sp pkgSpec, exports map[string]string, overlay map[string]st
 		if !sp.match(names[i]) {
 			continue
 		}
-		rw := &rewriter{fset: fset, info: info, file: f, imports: sp.imports, conc: sp.imports["sync"] != ""}
+		rw := &rewriter{fset: fset, info: info, file: f, imports: sp.imports, conc: sp.imports["sync"] != "" || sp.ranges, rangesOnly: sp.ranges}
 		rw.run()
 		// drop ordinary comments (the printer would scatter them over the moved statements); keep
 		// build constraints and compiler directives
@@ -251,6 +253,7 @@ type rewriter struct {
 	file      *ast.File
 	imports   map[string]string
 	conc      bool
+	rangesOnly bool
 	changed   bool
 	needSched bool
 	tmp       int
@@ -352,7 +355,7 @@ func (rw *rewriter) funcLits(n ast.Node) {
 			rw.block(fl.Body)
 			return false
 		}
-		if u, ok := x.(*ast.UnaryExpr); ok && u.Op == token.ARROW {
+		if u, ok := x.(*ast.UnaryExpr); ok && u.Op == token.ARROW && !rw.rangesOnly {
 			rw.unsupported(u, "channel receive inside an expression")
 		}
 		return true
@@ -405,19 +408,32 @@ func (rw *rewriter) stmt(st ast.Stmt) ast.Stmt {
 			rw.stmts(c.(*ast.CaseClause).Body)
 		}
 	case *ast.SelectStmt:
+		if rw.rangesOnly {
+			for _, c := range s.Body.List {
+				rw.stmts(c.(*ast.CommClause).Body)
+			}
+			return s
+		}
 		return rw.selectStmt(s)
 	case *ast.LabeledStmt:
 		s.Stmt = rw.stmt(s.Stmt)
 	case *ast.GoStmt:
+		if rw.rangesOnly {
+			rw.funcLits(s.Call)
+			return s
+		}
 		return rw.goStmt(s)
 	case *ast.DeferStmt:
 		rw.funcLits(s.Call)
 	case *ast.SendStmt:
 		rw.funcLits(s.Value)
+		if rw.rangesOnly {
+			return s
+		}
 		rw.needSched = true
 		return &ast.ExprStmt{X: &ast.CallExpr{Fun: sel("vsched", "Send"), Args: []ast.Expr{s.Chan, s.Value}}}
 	case *ast.ExprStmt:
-		if u, ok := s.X.(*ast.UnaryExpr); ok && u.Op == token.ARROW {
+		if u, ok := s.X.(*ast.UnaryExpr); ok && u.Op == token.ARROW && !rw.rangesOnly {
 			rw.needSched = true
 			return &ast.ExprStmt{X: &ast.CallExpr{Fun: sel("vsched", "Recv"), Args: []ast.Expr{u.X}}}
 		}
@@ -425,7 +441,7 @@ func (rw *rewriter) stmt(st ast.Stmt) ast.Stmt {
 	case *ast.AssignStmt:
 		// v := <-ch   /   v = <-ch
 		if len(s.Rhs) == 1 && len(s.Lhs) == 1 {
-			if u, ok := s.Rhs[0].(*ast.UnaryExpr); ok && u.Op == token.ARROW {
+			if u, ok := s.Rhs[0].(*ast.UnaryExpr); ok && u.Op == token.ARROW && !rw.rangesOnly {
 				rw.needSched = true
 				s.Rhs[0] = &ast.CallExpr{Fun: sel("vsched", "Recv"), Args: []ast.Expr{u.X}}
 				return s
